@@ -14,7 +14,7 @@ import (
 
 func init() {
 	Describe("C16", &PropInfo{
-		Rule: "accepted grammars (productive by construction; small ones that are emitted with the dense table and larger ones that are packed) with identifier pools (unicode letters, underscores, digits, very long names, names starting with directive keywords), literals drawn from every printable ASCII character the lexer can read, random tags / explicit token numbers / precedence lines / %prec, rules of length 0-5 (and, in a quarter of the cases, one rule of 10-13 symbols whose action uses $10 and beyond) with and without actions; the %union body is written over several lines or on one line; the prologue only names the package and imports fmt (in one %{ %} block or split over two), the epilogue only defines GetToken (and an empty main so that the Go toolchain can link); all five variants are generated and the emitted files compiled with `go build` / loaded by node unchanged. Non-trivial = grammar with >= 1 literal outside [A-Za-z0-9], >= 1 identifier with a non-ASCII letter or underscore and >= 1 untagged symbol; distinct by grammar text",
+		Rule: "accepted grammars (productive by construction; small ones that are emitted with the dense table and larger ones that are packed) with identifier pools (unicode letters, underscores, digits, very long names, names starting with directive keywords), literals drawn from every printable ASCII character the lexer can read (and occasionally a line feed or tab written between quotes), random tags / explicit token numbers / precedence lines / %prec, rules of length 0-5 (and, in a quarter of the cases, one rule of 10-13 symbols whose action uses $10 and beyond) with and without actions; the %union body is written over several lines or on one line; the prologue only names the package and imports fmt (in one %{ %} block or split over two), the epilogue only defines GetToken (and an empty main so that the Go toolchain can link); all five variants are generated and the emitted files compiled with `go build` / loaded by node unchanged. Non-trivial = grammar with >= 1 literal outside [A-Za-z0-9], >= 1 identifier with a non-ASCII letter or underscore and >= 1 untagged symbol; distinct by grammar text",
 		Assumptions: []string{
 			"token names avoid Go/TypeScript keywords, predeclared identifiers and the names used by the emitted skeleton (they become constants in the user's own package); $$/$n only address symbols that carry a tag; action text is valid in the target language",
 			"TypeScript: 'loads' means node >= 22 strips the types, parses and executes the top level of the file without error (there is no tsc in the sandbox)",
@@ -91,6 +91,15 @@ func drawC16(t *rapid.T) *C16Case {
 	}
 	s.OneLineUnion = rapid.IntRange(0, 2).Draw(t, "onelineunion") == 0
 	s.TwoPrologues = rapid.IntRange(0, 2).Draw(t, "twoprologues") == 0
+	if rapid.IntRange(0, 5).Draw(t, "ctrlit") == 0 {
+		// a line feed or tab between quotes is the only way to write those tokens as literals
+		for i := range s.Terms {
+			if s.Terms[i].IsLit() {
+				s.Terms[i].Lit = rapid.SampledFrom([]string{"\n", "\t"}).Draw(t, "ctrl")
+				break
+			}
+		}
+	}
 	cs := &C16Case{Spec: s}
 	s.SetLang("go")
 	cs.Text = s.Render(spec.RenderOpts{})
